@@ -627,3 +627,8 @@ B("C16", CU, "    return partial(_radius, cutoffs=cutoffs, radiuses=radiuses)", 
 # module state handed to the steppers is only read; a mutable default never becomes module state
 B("C18", SV, "    vecfield = vecfield.at[:, 1:].add((voltages[:, :-1] - voltages[:, 1:]) * lowers)\n", "    vecfield = vecfield.at[:, 1:].add((voltages[:, :-1] - voltages[:, 1:]) * lowers)\n    debug_states.update(vecfield=vecfield)\n", "R-C18-tracer")
 P("C18", SV, "    vecfield = vecfield.at[:, 1:].add((voltages[:, :-1] - voltages[:, 1:]) * lowers)\n", "    vecfield = vecfield.at[:, 1:].add((voltages[:, :-1] - voltages[:, 1:]) * lowers)\n    debug_states = dict(debug_states)\n    debug_states[\"vecfield\"] = vecfield\n")
+# on a uniform branch any old entry (or a statistic that returns one) is the old radius; the base module has no role
+P("C13", BASE, "            view[\"radius\"] = within_branch_radiuses[0] * np.ones(ncomp)", "            view[\"radius\"] = np.full(ncomp, np.mean(within_branch_radiuses))")
+B("C13", BASE, "            view[\"radius\"] = within_branch_radiuses[0] * np.ones(ncomp)", "            view[\"radius\"] = within_branch_radiuses[0] * np.ones(num_previous_ncomp)", "R-C13-length")
+P("C20", "jaxley/connect.py", "    post_rows = post_cell_view.base.nodes.loc[global_post_indices]", "    post_rows = pre_cell_view.base.nodes.loc[global_post_indices]")
+B("C20", "jaxley/connect.py", "    pre_rows = pre_cell_view.base.nodes.loc[global_pre_indices]", "    pre_rows = pre_cell_view.base.nodes.loc[global_post_indices]", "R-C20-rolenames")
